@@ -316,7 +316,7 @@ theorem cReadLoop_data (cfg : Cfg) (o : CacheOps σ) (f : File) (C : Reader σ) 
     readLoop cfg o f (m + 1) C want acc =
       readLoop cfg o f m
         (C.setB id { C.heap id with pos := (C.heap id).pos + min want (C.heap id).len,
-                                    offBlock := (C.heap id).offBlock + min want (C.heap id).len, used := true })
+                                    offBlock := ((C.heap id).offBlock + min want (C.heap id).len) % 65536, used := true })
         (want - min want (C.heap id).len)
         (acc ++ ((C.heap id).data.drop (C.heap id).pos).take (min want (C.heap id).len)) := by
   rw [readLoop]
@@ -429,17 +429,17 @@ theorem readLoop_sim {cfg : Cfg} (hcfg : cfg.failReset = true) (o : CacheOps σ)
             omega
           have hmod : (B.cur.tx.block + min want B.cur.len) % 65536 = B.cur.pos + min want B.cur.len := by
             rw [ktx]; apply Nat.mod_eq_of_lt; omega
-          have hh : (C.setB id { C.heap id with pos := (C.heap id).pos + min want B.cur.len, offBlock := (C.heap id).offBlock + min want B.cur.len, used := true }).heap id = { C.heap id with pos := (C.heap id).pos + min want B.cur.len, offBlock := (C.heap id).offBlock + min want B.cur.len, used := true } := by
+          have hh : (C.setB id { C.heap id with pos := (C.heap id).pos + min want B.cur.len, offBlock := ((C.heap id).offBlock + min want B.cur.len) % 65536, used := true }).heap id = { C.heap id with pos := (C.heap id).pos + min want B.cur.len, offBlock := ((C.heap id).offBlock + min want B.cur.len) % 65536, used := true } := by
             simp [Reader.setB]
           obtain ⟨C', flag, g1, g2, g3, g4, g5⟩ :=
-            ih (C.setB id { C.heap id with pos := (C.heap id).pos + min want B.cur.len, offBlock := (C.heap id).offBlock + min want B.cur.len, used := true }) ({ B with cur := ({ B.cur with pos := B.cur.pos + min want B.cur.len, tx := ⟨B.cur.tx.file, (B.cur.tx.block + min want B.cur.len) % 65536⟩ } : BBlock) } : BReader)
+            ih (C.setB id { C.heap id with pos := (C.heap id).pos + min want B.cur.len, offBlock := ((C.heap id).offBlock + min want B.cur.len) % 65536, used := true }) ({ B with cur := ({ B.cur with pos := B.cur.pos + min want B.cur.len, tx := ⟨B.cur.tx.file, (B.cur.tx.block + min want B.cur.len) % 65536⟩ } : BBlock) } : BReader)
               (want - min want B.cur.len)
               (acc ++ ((C.heap id).data.drop (C.heap id).pos).take (min want B.cur.len))
               (by
                 refine ⟨c.file, c.cache, c.lent, ⟨id, hid, ?_⟩, c.blocked, c.cb, c.ce⟩
                 rw [hh]
                 refine ⟨hb.base, hb.offFile, ?_, ?_, Or.inl ⟨hlen.2.1, hd, khs, kdata, ?_, klen, ?_, kmem⟩⟩
-                · simp only [hb.offBlock, ktx]; rw [ktx] at hmod; exact hmod.symm
+                · simp only [hb.offBlock, ktx]
                 · simp only [hb.pos]
                 · simp only; omega
                 · simp only [hmod])
@@ -545,8 +545,8 @@ theorem read_sim {cfg : Cfg} (hcfg : cfg.failReset = true) (o : CacheOps σ) {F 
 
 /-- the state `byteFin` leaves -/
 def byteStep (C : Reader σ) (id : Nat) : Reader σ :=
-  { C.setB id { C.heap id with pos := (C.heap id).pos + 1, offBlock := (C.heap id).offBlock + 1, used := true } with
-    chunkBegin := (C.heap id).txOffset, chunkEnd := ((C.heap id).offFile, (C.heap id).offBlock + 1) }
+  { C.setB id { C.heap id with pos := (C.heap id).pos + 1, offBlock := ((C.heap id).offBlock + 1) % 65536, used := true } with
+    chunkBegin := (C.heap id).txOffset, chunkEnd := ((C.heap id).offFile, ((C.heap id).offBlock + 1) % 65536) }
 
 /-- `ReadByte()` -/
 theorem readByte_sim {cfg : Cfg} (hcfg : cfg.failReset = true) (o : CacheOps σ) {F : BFile} (hwf : WF F)
@@ -625,7 +625,7 @@ theorem readByte_sim {cfg : Cfg} (hcfg : cfg.failReset = true) (o : CacheOps σ)
 
 /-- the state `seekFin` leaves -/
 def seekStep (C : Reader σ) (id : Nat) (file : Int) (blk : Nat) : Reader σ :=
-  { C.setB id { C.heap id with pos := blk, offBlock := blk } with
+  { C.setB id { C.heap id with pos := blk, offBlock := blk % 65536 } with
     err := .none, chunkBegin := (file, blk), chunkEnd := (file, blk) }
 
 theorem seekFin_sim {F : BFile} {C : Reader σ} {B : BReader} (c : Core F C B) (hd : B.cur.hsize ≠ 0)
